@@ -468,7 +468,8 @@ where
     let _enter = span.enter();
 
     loop {
-        let middle = (min + max) / 2.0;
+        // Not `(min + max) / 2.0`: the sum overflows when both bounds exceed f32::MAX / 2.
+        let middle = min / 2.0 + max / 2.0;
         // Whether the search interval cannot be narrowed anymore.
         let exhausted = !(min < middle && middle < max);
         // The last probe is made at max: the rounded middle of two adjacent
